@@ -244,7 +244,7 @@ class Session:
             obs_.sort(key=lambda o: 0 if o.status == 'refuted' else 1)
             ob = obs_[0]
             rep = None
-            if ob.status == 'refuted' and ob.replay is not None and nviol < 40:
+            if ob.replay is not None and nviol < 40:
                 try:
                     import contextlib, io
                     with contextlib.redirect_stdout(io.StringIO()):
